@@ -493,6 +493,13 @@ class Flow:
         statement outside any loop, each statement that changes the list lies inside an earlier statement of the sort's own
         block, nothing changes the list later, and the read comes after the sort."""
         MUT = ("append", "extend", "insert", "reverse", "pop", "remove", "clear", "sort", "__setitem__")
+        cache = self.__dict__.setdefault("_sorted_names", {})
+        names = cache.get(f)
+        if names is None:
+            names = cache[f] = {n.value.func.value.id for n in ast.walk(f.node) if isinstance(n, ast.Expr) and isinstance(n.value, ast.Call) and isinstance(n.value.func, ast.Attribute)
+                                and n.value.func.attr == "sort" and isinstance(n.value.func.value, ast.Name)}
+        if name not in names:
+            return False
         parent = {}
         for n in ast.walk(f.node):
             for c in ast.iter_child_nodes(n):
